@@ -202,6 +202,68 @@ def run(ctx, ck) -> None:
     # ------------------------------------------------------------------ J5 application reads no ambient state
     _ambient(ctx, ck, world, table)
 
+    # ------------------------------------------------------------------ J6 the factor of a scalar multiple is stored as an array
+    _scalar_leaf(ctx, ck, world, table)
+
+
+def _scalar_leaf(ctx, ck, world, table) -> None:
+    """J6: k * A and A / k store jnp.asarray(k) in the (dynamic) field of the scalar operator.  A Python number stored there
+    is not a leaf for a filtering jit: it becomes static metadata compared with ==, and 3 == 3.0 == True, so the code
+    compiled for one factor is reused for another one of a different type."""
+    base = table.get(OPERATOR_BASE)
+    hom = table.by_name('HomothetyOperator')
+    init = hom.own.get('__init__')
+    converts_in_init = False
+    if isinstance(init, ast.FunctionDef) and len(init.args.args) > 1:
+        me, v = init.args.args[0].arg, init.args.args[1].arg
+        for p in function_paths(init):
+            if p.exit not in ('return', 'fall'):
+                continue
+            env = path_env(p)
+            stored = env.get(('attr', ('var', me), 'value')) or env.get(f'{me}.value')
+            if stored is not None and _asarray_of(stored, v):
+                converts_in_init = True
+    n = 0
+    for name in ('__rmul__', '__truediv__'):
+        r = table.resolve(base, name)
+        if r is None or not isinstance(r.node, ast.FunctionDef) or len(r.node.args.args) < 2:
+            raise AnalysisError(f'anchor vanished: AbstractLinearOperator.{name}')
+        fn = r.node
+        other = fn.args.args[1].arg
+        for p in function_paths(fn):
+            if p.exit != 'return' or not isinstance(p.node, ast.Return) or p.node.value is None:
+                continue
+            rt = term(p.node.value, path_env(p))
+            calls = [t for t in _subterms(rt) if len(t) > 2 and t[0] == 'call' and t[1] == ('var', hom.name) and t[2]]
+            for c in calls:
+                n += 1
+                ok = converts_in_init or _asarray_of(c[2][0], other)
+                ck.expect('J6', ok, fn, f'{name}: the factor handed to the scalar operator is jnp.asarray(k) ({show(c[2][0])[:60]})',
+                          f'{name}: the factor handed to the scalar operator is {show(c[2][0])[:80]}, not an array made from it: a Python number is static metadata for a filtering jit, '
+                          'and since 3 == 3.0 the program compiled for one factor is silently reused for a factor of another type', instance=f'{name} factor is an array')
+    ck.floor('J6', n, 2, 'scalar operators built by the arithmetic dunders')
+
+
+def _subterms(t):
+    if isinstance(t, tuple):
+        yield t
+        for x in t:
+            yield from _subterms(x)
+
+
+def _asarray_of(t, param: str) -> bool:
+    """The term is an array built from the parameter: jnp.asarray(param), or arithmetic on it with constants."""
+    if not isinstance(t, tuple) or not t:
+        return False
+    if len(t) > 2 and t[0] == 'call' and isinstance(t[1], tuple) and show(t[1]).replace('jax.numpy', 'jnp') in ('jnp.asarray', 'jnp.array', 'np.asarray', 'np.array'):
+        return bool(t[2]) and any(x == ('var', param) for x in _subterms(t[2][0]))
+    if t[0] == 'binop' and len(t) == 4:
+        a, b = t[2], t[3]
+        return (_asarray_of(a, param) and (b[0] == 'const' or _asarray_of(b, param))) or (_asarray_of(b, param) and a[0] == 'const')
+    if t[0] in ('neg', 'unop') and len(t) >= 2:
+        return _asarray_of(t[-1], param)
+    return False
+
 
 AMBIENT_CALLS = ('os.getenv', 'os.environ.get', 'time.time', 'time.monotonic', 'time.perf_counter', 'random.random', 'random.randint', 'random.uniform',
                  'numpy.random.rand', 'numpy.random.randn', 'numpy.random.random', 'numpy.random.uniform', 'numpy.random.normal', 'numpy.random.randint')
@@ -410,5 +472,6 @@ def controls(world: World) -> list[Control]:
         Control('aux-key-not-accepted', lambda w: variant(w, LAND, add_key), 'C18.J1'),
         Control('static-array-field', lambda w: variant(w, 'furax._base.core', static_array), 'C18.J2'),
         Control('numpy-sized-fft', lambda w: edit_def(w, 'furax.operators.toeplitz', 'SymmetricBandToeplitzOperator._get_default_fft_size', lambda fn: replace_expr(fn, 'int(2 ** (additional_power + np.ceil(np.log2(band_number))))', '2 ** (additional_power + np.ceil(np.log2(band_number)).astype(int))')), 'C18.J2'),
+        Control('python-scalar-factor', lambda w: edit_def(w, 'furax._base.core', 'AbstractLinearOperator.__rmul__', lambda fn: replace_expr(fn, 'HomothetyOperator(other, self.out_structure())', 'HomothetyOperator(other.item(), self.out_structure())')), 'C18.J6'),
         Control('traced-branch', lambda w: edit_def(w, 'furax._base.core', 'HomothetyOperator.mv', lambda fn: replace_expr(fn, 'jax.tree.map(lambda leaf: self.value * leaf, x)', 'jax.tree.map(lambda leaf: self.value * leaf if self.value != 0 else leaf * 0, x)')), 'C18.J3'),
     ]
